@@ -540,6 +540,14 @@ class Body:
         return [g.stmt(d.choice(["rept", "REPT", "Rept"]), self.with_ctrl(cnt, ctl),
                        g.fresh("R") if d.bool(0.1) and not ctx.get("nolabel") else "")] + body + [self.endm()]
 
+    def open_label(self, ctx):
+        """-> (label for the line that opens a construct or "", lines that refer to it behind the construct)"""
+        g, d = self.g, self.d
+        if ctx.get("nolabel") or not d.bool(0.25):
+            return "", []
+        lab = g.fresh("K")
+        return lab, ([g.stmt(d.choice(g.c["word"]), lab)] if d.bool(0.8) else [])
+
     def endm(self):
         e = self.g.stmt(self.d.weighted([(6, "endm"), (2, "ENDM"), (2, "endr")]))
         if self.d.int(0, 99) < 6:
@@ -581,7 +589,8 @@ class Body:
                 after = [g.stmt(d.choice(g.c["word"]), d.choice(args))]
         hdr = self.with_ctrl(name + "," + ",".join(args), ctl) if ctl and d.bool() else name + "," + ",".join(args) + \
             ("," + ctl if ctl else "")
-        return [g.stmt(d.choice(["irp", "IRP"]), hdr)] + body + [self.endm()] + after
+        lab, ref = self.open_label(ctx)
+        return [g.stmt(d.choice(["irp", "IRP"]), hdr, lab)] + body + [self.endm()] + after + ref
 
     def c_irpn(self, ctx, depth):
         g, d = self.g, self.d
@@ -613,7 +622,8 @@ class Body:
         hdr = "%s,%s,%s" % (kk, ",".join(names), ",".join(args))
         if ctl:
             hdr += "," + ctl
-        return pre + [g.stmt(d.choice(["irpn", "IRPN"]), hdr)] + body + [self.endm()]
+        lab, ref = self.open_label(ctx)
+        return pre + [g.stmt(d.choice(["irpn", "IRPN"]), hdr, lab)] + body + [self.endm()] + ref
 
     def c_irpc(self, ctx, depth):
         g, d = self.g, self.d
@@ -631,7 +641,8 @@ class Body:
         hdr = '%s,"%s"' % (name, s)
         if ctl:
             hdr += "," + ctl
-        return [g.stmt(d.choice(["irpc", "IRPC"]), hdr)] + body + [self.endm()]
+        lab, ref = self.open_label(ctx)
+        return [g.stmt(d.choice(["irpc", "IRPC"]), hdr, lab)] + body + [self.endm()] + ref
 
     def c_while(self, ctx, depth):
         g, d = self.g, self.d
@@ -654,8 +665,10 @@ class Body:
         if pos not in (0, len(body)):
             pos = len(body)
         body.insert(pos, inc)
+        lab, ref = self.open_label(ctx)
         return [v + g.sp() + g.c["setop"] + g.sp() + str(start),
-                g.stmt(d.choice(["while", "WHILE"]), self.with_ctrl("%s%s%s" % (v, op, lim), ctl))] + body + [self.endm()]
+                g.stmt(d.choice(["while", "WHILE"]), self.with_ctrl("%s%s%s" % (v, op, lim), ctl), lab)] + body + \
+            [self.endm()] + ref
 
     # ---------- macro calls
     def call(self, m, ctx, label=""):
@@ -1493,6 +1506,18 @@ def fixed_cases(tier):
     # implicit parameters next to explicit ones
     out.append(mk("68000", M68 + "m macro " + ",".join(ps[:17]) + '\n dc.b "\\P16\\ARGCOUNT.\\P17\\ALLARGS.\\P16\\ATTRIBUTE"\n'
                   " dc.ATTRIBUTE p16\n endm\n m.w " + ",".join(str(i) for i in range(17)) + "\n", kind="fix-adjacent"))
+    # --- a label on the line that opens a construct, at an odd address, the first body line padded: the label moves with
+    #     the padding exactly as a label on a line of its own in front of the expanded lines does
+    for opener, closer in (("rept 2", "endm"), ("irp x,5,6", "endm"), ("irpn 1,x,5,6", "endm"), ("irpn 2,x,y,5,6,7", "endm"),
+                           ('irpc x,"12"', "endm"), ("while wc<2", "endm"), ("lm 5", None)):
+        for first in (" dc.w 4660\n", " dc.l 1\n", " nop\n", " dc.b 7\n"):
+            pre = M68 + "wc set 0\nlm macro p\n%s dc.b p\n endm\n" % first
+            if closer:
+                body = "kl: %s\n%s dc.b 9\nwc set wc+1\n %s\n" % (opener, first, closer)
+            else:
+                body = "kl: %s\n" % opener
+            out.append(mk("68000", pre + " dc.b 1\n" + body + " dc.l kl\n dc.b 2\n" + body.replace("kl:", "km:") + " dc.l km\n",
+                          kind="fix-open-label"))
     # --- IRPN group sizes 1..4, ragged tails
     for k in (1, 2, 3, 4):
         names = ["q%d" % i for i in range(k)]
